@@ -59,4 +59,19 @@ def walk (next : Nat → Option Nat) (last : Nat) : Nat → Nat → Bool
   | 0, _ => false
   | fuel + 1, ix => if ix = last then true else walk next last fuel ((next ix).getD last)
 
+/-- the CJK link walk of `compute_edges` (topo/edges.rs:105):
+`loop { if let Some(link1) = seg1.link(..) { …; if dist2 >= threshold { break } }
+        if seg1.edge_next_ix == Some(first_ix) { break }
+        if let Some(next) = seg1.next_in_edge(..) { seg1 = next } else { break } }`
+`stop ix` = the data exit at segment `ix`; `valid ix` = `segments.get(ix)` is `Some` (`next_in_edge` returns `None`
+for a missing link or an index outside the table).  `true` iff it breaks within `fuel` iterations. -/
+def walkCjk (next : Nat → Option Nat) (first : Nat) (stop valid : Nat → Bool) : Nat → Nat → Bool
+  | 0, _ => false
+  | fuel + 1, ix =>
+    if stop ix then true
+    else if next ix = some first then true
+    else match next ix with
+      | some nx => if valid nx then walkCjk next first stop valid fuel nx else true
+      | none => true
+
 end FontVerif.EdgeRing
